@@ -344,6 +344,10 @@ func applyDocEdit(doc *JV, op Op) bool {
 				return true
 			}
 		}
+	case "graft":
+		return applyGraft(doc, op.I, op.J)
+	case "paykeys":
+		return applyPayKeys(doc, op.I, op.J)
 	case "transplant":
 		return applyTransplant(doc, op.I, op.J, op.N)
 	case "valuedate":
@@ -487,7 +491,7 @@ func applyDocEdit(doc *JV, op Op) bool {
 	return false
 }
 
-var editKinds = []string{"qty", "price", "rmline", "dupline", "note", "rounding", "custname", "code", "breakdown", "linedisc", "linecharge", "docdisc", "advances", "codeweird", "addrweird", "taxidweird", "amountprec", "mixrates", "mixrates", "rmdefaulted", "sloppy", "sloppy", "sloppy", "inboxweird", "scenario", "scenario", "fx", "valuedate", "transplant", "transplant", "docfixed"}
+var editKinds = []string{"qty", "price", "rmline", "dupline", "note", "rounding", "custname", "code", "breakdown", "linedisc", "linecharge", "docdisc", "advances", "codeweird", "addrweird", "taxidweird", "amountprec", "mixrates", "mixrates", "rmdefaulted", "sloppy", "sloppy", "sloppy", "inboxweird", "scenario", "scenario", "fx", "valuedate", "transplant", "transplant", "docfixed", "paykeys", "graft", "graft"}
 
 func genEdit(r *rand.Rand, id int) Op {
 	k := Pick(r, editKinds)
@@ -519,6 +523,10 @@ func genEdit(r *rand.Rand, id int) Op {
 		op.S2 = Pick(r, []string{"type", "currency", "$regime", "type", "tax"})
 	case "sloppy":
 		op.I, op.J = int64(r.IntN(1<<16)), int64(r.IntN(7))
+	case "graft":
+		op.I, op.J = int64(r.IntN(1<<12)), int64(r.IntN(1<<10))
+	case "paykeys":
+		op.I, op.J = int64(r.IntN(1<<10)), int64(r.IntN(1<<10))
 	case "docfixed":
 		op.S2 = Pick(r, []string{"10.126", "0.005", "3.14159", "7.5", "12.3449"})
 	case "transplant":
